@@ -17,6 +17,7 @@ from spacepackets.ccsds.time.common import (
     convert_unix_days_to_ccsds_days,
     CcsdsTimeCodeId,
     MS_PER_DAY,
+    UNIX_EPOCH,
 )
 
 
@@ -227,12 +228,13 @@ class CdsShortTimestamp(CcsdsTimeProvider):
         instance = cls.empty(False)
         instance._datetime = dt
         instance._unix_seconds = dt.timestamp()
-        full_unix_secs = int(math.floor(instance._unix_seconds))
-        subsec_millis = int((instance._unix_seconds - full_unix_secs) * 1000)
-        unix_days = full_unix_secs // SECONDS_PER_DAY
-        secs_of_day = full_unix_secs % SECONDS_PER_DAY
-        instance._ms_of_day = secs_of_day * 1000 + subsec_millis
-        instance._ccsds_days = convert_unix_days_to_ccsds_days(unix_days)
+        # Integer arithmetic on the datetime fields. The float timestamp can not represent every
+        # whole millisecond, and truncating its fraction loses one millisecond for about half of them
+        since_unix_epoch = dt.astimezone(datetime.timezone.utc) - UNIX_EPOCH
+        instance._ms_of_day = (
+            since_unix_epoch.seconds * 1000 + since_unix_epoch.microseconds // 1000
+        )
+        instance._ccsds_days = convert_unix_days_to_ccsds_days(since_unix_epoch.days)
         return instance
 
     @classmethod
